@@ -190,7 +190,7 @@ Print Assumptions C14_if_not_missing_refuted.
 Theorem C14_substitute_count_refuted : refutes w_subst_count = true /\ refutes w_subst_count0 = true /\ refutes w_subst_count_neg = true.
 Proof. exact substitute_count_refuted. Qed.
 Print Assumptions C14_substitute_count_refuted.
-Theorem C14_assoc_refuted : refutes w_assoc_nil = true /\ refutes w_assoc_order = true.
+Theorem C14_assoc_refuted : refutes w_assoc_order = true.
 Proof. exact assoc_refuted. Qed.
 Print Assumptions C14_assoc_refuted.
 Theorem C14_search_refuted : refutes w_search_from_end = true /\ refutes w_search_empty = true.
